@@ -250,15 +250,16 @@ impl PendingSubscriptionSink {
 		//
 		// The same message is sent twice here because one is sent directly to the transport layer and
 		// the other one is sent internally to accept the subscription.
-		self.inner.send(response.to_json()).await.map_err(|_| PendingSubscriptionAcceptError)?;
-		crate::verif_point!("server.sub.accept.between_sends");
-		self.subscribe.send(response).map_err(|_| PendingSubscriptionAcceptError)?;
+		//
+		// The subscription is registered before the response can reach the client (which may unsubscribe
+		// as soon as it has seen it) but not before there is room for the response: until then it is pending.
+		let permit = self.inner.reserve().await.map_err(|_| PendingSubscriptionAcceptError)?;
 
-		if success {
+		let sink = if success {
 			let (tx, rx) = mpsc::channel(1);
 			self.subscribers.lock().insert(self.uniq_sub.clone(), (self.inner.clone(), rx));
-			Ok(SubscriptionSink {
-				inner: self.inner,
+			Some(SubscriptionSink {
+				inner: self.inner.clone(),
 				method: self.method,
 				uniq_sub: self.uniq_sub.clone(),
 				unsubscribe: IsUnsubscribed(tx.clone()),
@@ -270,9 +271,19 @@ impl PendingSubscriptionSink {
 				_permit: Arc::new(self.permit),
 			})
 		} else {
-			panic!(
+			None
+		};
+
+		permit.send(response.to_json());
+		crate::verif_point!("server.sub.accept.between_sends");
+		// NOTE: if this fails the sink is dropped which removes the subscription again.
+		self.subscribe.send(response).map_err(|_| PendingSubscriptionAcceptError)?;
+
+		match sink {
+			Some(sink) => Ok(sink),
+			None => panic!(
 				"The subscription response was too big; adjust the `max_response_size` or change Subscription ID generation"
-			);
+			),
 		}
 	}
 
